@@ -307,9 +307,9 @@ func engineSet(target, path, val string) *gnmi.SetRequest {
 
 func init() {
 	fw.Register(&fw.Check{ID: "C12", Level: "exploration",
-		Technique: "runtime monitoring: PRNG structured generation + wire-level mutation of gNMI / admin requests, every request round-tripped through its wire encoding, handlers called under recover() with the real controllers running; a panic anywhere in the process is a violation keyed by its top onos-config frame",
+		Technique: "runtime monitoring: PRNG structured generation + wire-level mutation of gNMI / admin requests, every request round-tripped through its wire encoding, handlers called under recover() with the real controllers running; a panic anywhere in the process is a violation keyed by its top onos-config frame; plus a coverage-guided stage: Go native fuzzing (go test -fuzz, coverage of the whole process) over the same handlers with the structured generator's requests as seed corpus, a fixed number of executions",
 		Rule: "each case is a batch of 60 requests (Set 40%, Get 25%, Subscribe streams 15%, Capabilities, admin calls 15%) against an empty or a populated world; a third of the requests are additionally bit-flipped / truncated / spliced at wire level and kept when they still decode; " +
-			"distinct_nontrivial = distinct (handler, gRPC answer class) pairs observed",
+			"distinct_nontrivial = distinct (handler, gRPC answer class) pairs observed; the last case is the coverage-guided stage (quick 25000 executions, thorough 200000)",
 		Assumptions: []string{"requests reach the handlers as Go messages decoded from wire bytes (no gRPC transport)", "the in-flight request of a batch is written to work/C12/inflight-<case>.txt before each call, so a fatal runtime error still leaves the input"},
 		DistinctSet: "answer", CaseTimeout: 600e9,
 		Floors: map[string]int64{"requests": 5000, "set_requests_accepted": 50, "requests_wire_mutated": 500, "fuzz_executions": 20000},
